@@ -223,10 +223,19 @@ def gen_composite(rng, cts, lower, name, n_out, n_comp, fams=None):
     used = []
     edges = []
     for t in sorted(by_type):
-        for _ in range(rng.choice([1, 1, 2, 3])):
+        nfrag = rng.choice([1, 1, 2, 3])
+        pool = list(by_type[t])
+        disjoint = nfrag > 1 and len(pool) >= 2 * nfrag and rng.random() < 0.6
+        if disjoint:                       # fragments over disjoint node groups: several sets survive
+            rng.shuffle(pool)
+            cuts = sorted(rng.sample(range(2, len(pool) - 1), nfrag - 1)) if len(pool) > 3 else []
+            groups = [pool[i:j] for i, j in zip([0] + cuts, cuts + [len(pool)])]
+        else:
+            groups = [pool] * nfrag
+        for g in groups:
             fam = rng.choice(fams or FAMILIES)
             used.append(fam)
-            edges += fragments(rng, by_type[t], fam)
+            edges += fragments(rng, g, fam)
     if rng.random() < 0.3:
         rng.shuffle(edges)
     body = [{"connect": e} for e in edges]
